@@ -40,14 +40,24 @@ def handle_rules(ctx, rid, cls, what_lock):
                "m_handle_lock is a standard RAII lock object", "type is " + fl["type"], inst=r.qname)
         copy_ctor = [m for m in r.methods if m.get("copy_ctor")]
         copy_as = [m for m in r.methods if m.get("copy_assign")]
-        ctx.ob(rid, bool(copy_ctor) and all(m["deleted"] for m in copy_ctor), site,
-               "copy constructor is deleted", "", inst=r.qname)
-        ctx.ob(rid, bool(copy_as) and all(m["deleted"] for m in copy_as), site,
-               "copy assignment is deleted", "", inst=r.qname)
-        mv = [m for m in r.methods if m.get("move_ctor") or m.get("move_assign")]
-        ctx.ob(rid, len(mv) == 2 and all(m["defaulted"] and not m["deleted"] for m in mv), site,
-               "move operations are defaulted over the standard lock type (moved-from lock is unowned)",
-               "", inst=r.qname)
+        # not copyable: declared deleted, or implicitly deleted (the lock member is move-only)
+        okc = all(m["deleted"] for m in copy_ctor) if copy_ctor else bool(r.special.get("copy_ctor_deleted", False) or
+                                                                          not r.special.get("has_simple_copy_ctor", True))
+        ctx.ob(rid, okc, site, "the handle is not copy-constructible", "" if okc else "a copy would share one lock ownership",
+               inst=r.qname)
+        if copy_as:
+            ctx.ob(rid, all(m["deleted"] for m in copy_as), site, "copy assignment is deleted", "", inst=r.qname)
+        mv = [m for m in r.methods if (m.get("move_ctor") or m.get("move_assign")) and not m["deleted"]]
+        for m in mv:
+            if m["defaulted"] or m.get("implicit"):
+                ctx.ob(rid, True, "%s:%d" % (short(r.file), m["line"]), "%s is defaulted over the standard lock type "
+                       "(moved-from lock is unowned, the target's old lock is released)" %
+                       ("move constructor" if m.get("move_ctor") else "move assignment"), "", inst=r.qname)
+            else:
+                ok, detail = _user_move_ok(fb, cls, r, m)
+                ctx.ob(rid, ok, "%s:%d" % (short(r.file), m["line"]), "user-provided %s transfers pointer and lock ownership "
+                       "(lock moved, not swapped or copied)" % ("move constructor" if m.get("move_ctor") else "move assignment"),
+                       detail, inst=r.qname)
         dt = [m for m in r.methods if m.get("kind") == "dtor" and m.get("user_provided")]
         ctx.ob(rid, not dt, site, "no user-provided destructor (the lock member releases)", "", inst=r.qname)
     # constructors and methods
@@ -80,6 +90,8 @@ def handle_rules(ctx, rid, cls, what_lock):
             continue
         if f.kind == "dtor" or f.defaulted:
             continue
+        if f.name == "operator=" and f.params and handle_class(f.params[0].get("type", "")):
+            continue      # move assignment: judged by the move rule above
         for st in f.stmts.values():
             if st["k"] == "CXXMemberCallExpr":
                 obj = f.s(st["obj"])
@@ -97,6 +109,30 @@ def handle_rules(ctx, rid, cls, what_lock):
                            "" if ok else "%s() assigns data" % f.name, fn=f.label, inst=f.qname)
 
 
+def _user_move_ok(fb, cls, r, m):
+    """hand-written move operation of a handle: data copied from the source, m_handle_lock move-constructed /
+    move-assigned from the source's lock"""
+    fs = [f for f in fb.functions(rec=cls) if f.id == m["id"] and f.recq == r.qname]
+    if not fs:
+        return True, ""     # never instantiated in this configuration
+    f = fs[0]
+    src = "p:" + f.params[0]["name"]
+    if f.kind == "ctor":
+        ini = {i.get("field"): f.s(i.get("init")) for i in f.inits if i.get("field")}
+        li = unwrap(f, ini.get("m_handle_lock"))
+        ok = li is not None and li["k"] in CTORS and len(li["args"]) == 1 and path(f, f.s(li["args"][0])) == src + ".m_handle_lock" \
+            and li["callee"]["params"][0].endswith("&&")
+        okd = path(f, ini.get("data")) == src + ".data"
+        return (ok and okd), ("" if ok and okd else "the lock or the pointer is not taken from the source")
+    asg = [st for st in f.stmts.values() if st["k"] == "CXXOperatorCallExpr" and st.get("op") == "=" and
+           path(f, f.s(st["args"][0])) == "this.m_handle_lock"]
+    ok = len(asg) == 1 and path(f, f.s(asg[0]["args"][1])) == src + ".m_handle_lock" and asg[0]["callee"]["params"][0].endswith("&&")
+    others = [st for st in f.stmts.values() if st["k"] == "CXXMemberCallExpr" and path(f, f.s(st["obj"])) == "this.m_handle_lock"]
+    if others:
+        return False, "m_handle_lock.%s(): the lock the target held is not released by the assignment" % others[0]["callee"]["name"]
+    return ok, ("" if ok else "m_handle_lock is not move-assigned from the source")
+
+
 def helper_summaries(ctx, rid, names, mode_for_plain, doc=None):
     """try_lock_*handle* helpers: pointer iff owned; never the blocking form"""
     ctx.rule(rid, doc or "try helpers build the lock with a try/timed constructor and return the object "
@@ -110,8 +146,7 @@ def helper_summaries(ctx, rid, names, mode_for_plain, doc=None):
             s = eng.handle_summary(f)
             site = f.where
             if s is None:
-                ctx.ob(rid, False, site, "%s: return paths understood" % nm,
-                       "cannot summarise the handle it returns", fn=f.label, inst=f.qname)
+                ctx.unknown("%s: cannot summarise the handle returned by %s at %s" % (rid, nm, site))
                 continue
             p0 = "p:" + f.params[0]["name"]
             p1 = "p:" + f.params[1]["name"]
@@ -463,8 +498,7 @@ def acquisition_summaries(ctx, rid, classes, opt_classes=()):
             s = eng.handle_summary(f)
             site = f.where
             if s is None:
-                ctx.ob(rid, False, site, "%s::%s return paths understood" % (cls.split("::")[-1], f.name),
-                       "cannot summarise the returned handle", fn=f.label, inst=f.qname)
+                ctx.unknown("%s: cannot summarise the handle returned by %s::%s at %s" % (rid, cls.split("::")[-1], f.name, site))
                 continue
             is_try = f.name.startswith("try_")
             en = [a for a in s if not (a.get("cond") and a["cond"][0] == "this.enabled" and a["cond"][1] is False)]
